@@ -326,9 +326,235 @@ def type_cases(T, lay, tier):
     cs += quat_cast_cases(T, lay, cfg, qt, m3, kt, tg)
     cs += two_vector_cases(T, lay, cfg, qt, v3, kt, tg, sc)
     cs += angle_axis_roundtrip(T, lay, cfg, qt, v3, kt, tg, sc)
+    cs += euler_extract_cases(T, lay, cfg, qt, v3, kt, tg, sc)
     if lay == 'xyzw':
         cs += euler_cases(T, cfg, kt, tg, sc, m4, m3, v3)
     return cs
+
+
+# ---- roll / pitch / yaw / eulerAngles ---------------------------------------------------------------------------------------------------------
+
+def euler_extract_cases(T, lay, cfg, qt, v3, kt, tg, sc):
+    """quat(eulerAngles(q)) reproduces the rotation.  With q = qua(e), e = (pitch p, yaw y, roll r) (the composition the euler_ctor rule ties to the axis rotations):
+      D1  away from the guard, pitch(q) = atan2(sin p cos y, cos p cos y) and roll(q) = atan2(sin r cos y, cos r cos y) -- the arguments of the returned atan2 are
+          these products identically (half-angle atoms, sin^2 + cos^2 = 1) -- and yaw(q) = asin(sin y) (clamped to [-1, 1]);  so for cos y > 0 the angles come back;
+      D2  in gimbal lock (cos y = 0, i.e. sin(y/2) = +-cos(y/2)), where only p -+ r is determined, roll returns 0 and pitch returns 2 atan2 of arguments
+          proportional to (sin((p -+ r)/2), cos((p -+ r)/2));
+      D3  (generic unit q) the fallback is taken only on paths that bound BOTH arguments of the regular atan2 by epsilon: a path that leaves the regular formula while one
+          argument is still large returns a different angle -- refuted with a rational unit quaternion on that path;
+      D4  eulerAngles(q) is (pitch, yaw, roll) lane by lane."""
+    cs = []
+    half = Fraction(1, 2)
+    E = [L.in_atom('e', v3, i) for i in range(3)]
+    C = [Poly.atom(('fn:cos', ('P', E[i].scale(half)))) for i in range(3)]
+    Sn = [Poly.atom(('fn:sin', ('P', E[i].scale(half)))) for i in range(3)]
+    sin_ = lambda i: (Sn[i] * C[i]).scale(2)
+    cos_ = lambda i: ONE - (Sn[i] * Sn[i]).scale(2)
+    norm = lambda p_: cossin(P.reduce_inv(p_))
+
+    def atan2_atoms(p_):
+        return [(a, P.atom_key(a)) for a in p_.atoms() if P.atom_key(a)[0] == 'fn:atan2']
+
+    def regime(asg, infos):
+        return ', '.join('%s %s %s' % (P.show_poly(infos[at][0], limit=2), '<' if v == 'lt' else '>', P.show_poly(infos[at][1], limit=2)) for at, v in asg.items() if at[0] == 'pair')[:260]
+
+    for fn_, ang in (('pitch', 0), ('roll', 2)):
+        kc = K('%s_of_euler_%s' % (fn_, kt), [Par('o', sc, False), Par('e', v3)], '*o = %s(%s(*e));' % (fn_, qt.cpp), cfg)
+        kg = K('%s_q_%s' % (fn_, kt), [Par('o', sc, False), Par('q', qt)], '*o = %s(*q);' % fn_, cfg)
+        name = '%s(q)<%s>' % (fn_, tg)
+
+        def judge(ctx, kc=kc, kg=kg, fn_=fn_, ang=ang, name=name):
+            res = []
+            for kern in (kc, kg):
+                err = ctx.compile_error(kern)
+                if err:
+                    return [R.ob(name, 'existence', R.REFUTED, 'cannot be instantiated: ' + err, kernel=kern.source())]
+            # ---- D1 / D2 on the composed kernel
+            t = L.out_lanes(ctx, kc, sc)[0]
+            leaves = P.decision_paths(lambda a_: P.NormCtx(a_, norm), lambda cx: cx.fpoly(t))
+            seen = set()
+            Yt, Xt = norm(sin_(ang) * cos_(1)), norm(cos_(ang) * cos_(1))
+            nmain = nfall = 0
+            for asg, infos, got, cx in leaves:
+                if got.key() in seen:
+                    continue
+                seen.add(got.key())
+                at2 = atan2_atoms(got)
+                oid = '%s.euler.path%d' % (name, len(seen))
+                if len(at2) == 1 and (got - Poly.var(at2[0][0])).is_zero():
+                    Y, X = norm(at2[0][1][1][1]), norm(at2[0][1][2][1])
+                    ok = (Y - Yt).is_zero() and (X - Xt).is_zero()
+                    # a common positive constant factor is as good
+                    if not ok and X.t and Xt.t:
+                        for f in (Fraction(2), Fraction(1, 2), Fraction(4), Fraction(1, 4)):
+                            ok = ok or ((Y - Yt.scale(f)).is_zero() and (X - Xt.scale(f)).is_zero())
+                    nmain += 1
+                    st = R.PROVED if ok else R.UNDECIDED
+                    if not ok:
+                        d = [x for x in (Y - Yt, X - Xt) if not x.is_zero()]
+                        env = P.find_witness('gt', ONE, d[:1]) if all(P.transparent(x) for x in d[:1]) else None
+                        # the arguments differ from the products at a point; they could still be proportional there: require the cross product to be non-zero
+                        cr = norm(Y * Xt - X * Yt)
+                        if not cr.is_zero() and P.transparent(cr):
+                            env = P.find_witness('gt', ONE, [cr])
+                            if env is not None:
+                                st = R.REFUTED
+                                res.append(R.ob(oid, 'euler_extract', st, '%s(qua(e)) = atan2(Y, X) with (Y, X) not parallel to (sin cos y, cos cos y): Y cos - X sin = %s at %s' % (fn_, P.eval_poly(cr, env), P.show_env(env)), kernel=kc.source()))
+                                continue
+                    res.append(R.ob(oid, 'euler_extract', st, ('%s(qua(e)) = atan2(sin %s cos y, cos %s cos y)  [%s]' % (fn_, 'pr'[ang // 2], 'pr'[ang // 2], regime(asg, infos))) if ok else
+                                    'atan2 arguments %s ; %s' % (P.show_poly(Y, limit=4), P.show_poly(X, limit=4)), kernel=kc.source()))
+                    continue
+                nfall += 1
+                if fn_ == 'roll':
+                    ok = got.is_zero()
+                    res.append(R.ob(oid, 'euler_extract', R.PROVED if ok else R.UNDECIDED, 'gimbal lock: roll is returned as 0' if ok else 'fallback value %s' % P.show_poly(got, limit=4), kernel=kc.source()))
+                    continue
+                ok = False
+                detail = 'fallback value %s' % P.show_poly(got, limit=4)
+                if len(at2) == 1 and (got - Poly.var(at2[0][0]).scale(2)).is_zero():
+                    Y, X = at2[0][1][1][1], at2[0][1][2][1]
+                    (sya,), = list(Sn[1].t)
+                    good = 0
+                    for sg in (1, -1):
+                        # sin(y/2) = sg cos(y/2):  (Y, X) must be  k cos(y/2) (sin((p - sg r)/2), cos((p - sg r)/2)),  k > 0
+                        Ys, Xs = norm(Y.subst(sya, C[1].scale(sg))), norm(X.subst(sya, C[1].scale(sg)))
+                        sd = Sn[0] * C[2] - (C[0] * Sn[2]).scale(sg)
+                        cd = C[0] * C[2] + (Sn[0] * Sn[2]).scale(sg)
+                        if norm(Ys - C[1] * sd).is_zero() and norm(Xs - C[1] * cd).is_zero():
+                            good += 1
+                    ok = good == 2
+                    detail = 'gimbal lock: pitch is returned as 2 atan2(k sin((p -+ r)/2), k cos((p -+ r)/2)) = p -+ r' if ok else 'fallback arguments %s ; %s are not proportional to the half-angle sine / cosine of p -+ r' % (P.show_poly(Y, limit=4), P.show_poly(X, limit=4))
+                res.append(R.ob(oid, 'euler_extract', R.PROVED if ok else R.UNDECIDED, detail, kernel=kc.source()))
+            res.append(R.ob(name + '.euler.paths', 'euler_extract', R.PROVED if (nmain >= 1 and nfall >= 1) else R.UNDECIDED, '%d regular and %d fallback result forms' % (nmain, nfall), kernel=kc.source()))
+            # ---- D3 on the generic kernel
+            tg_ = L.out_lanes(ctx, kg, sc)[0]
+            q = qin('q', qt)
+            qa = [list(x.t)[0][0] for x in q]
+            nrm = lambda p_: unit(P.reduce_inv(p_), q)
+            leaves = P.decision_paths(lambda a_: P.NormCtx(a_, nrm), lambda cx: cx.fpoly(tg_))
+            main = [(asg, infos, got) for asg, infos, got, cx in leaves if len(atan2_atoms(got)) == 1 and (got - Poly.var(atan2_atoms(got)[0][0])).is_zero()]
+            if not main:
+                res.append(R.ob(name + '.guard', 'euler_extract', R.UNDECIDED, 'no regular path found', kernel=kg.source()))
+                return res
+            at = atan2_atoms(main[0][2])[0][1]
+            Yq, Xq = nrm(at[1][1]), nrm(at[2][1])
+            n = 0
+            for asg, infos, got, cx in leaves:
+                a2 = atan2_atoms(got)
+                if len(a2) == 1 and (got - Poly.var(a2[0][0])).is_zero():
+                    continue
+                n += 1
+                cons = [(v, nrm(infos[at_][0] - infos[at_][1])) for at_, v in asg.items() if at_[0] == 'pair']
+                # which of |X| <= eps, |Y| <= eps does the path contain?  (s X - eps < 0 with the sign s chosen by the path)
+                def bounded(Z):
+                    for v, e_ in cons:
+                        for a_ in e_.atoms():
+                            ka = P.atom_key(a_)
+                            if ka[0] == 'fabs' and nrm(ka[1][1]) in (Z, -Z):
+                                r_ = e_ + Poly.var(a_)
+                                if r_.is_const() and r_.t and v == 'gt' and 0 < r_.cval() < Fraction(1, 1000):
+                                    return True
+                                r_ = e_ - Poly.var(a_)
+                                if r_.is_const() and r_.t and v == 'lt' and 0 < -r_.cval() < Fraction(1, 1000):
+                                    return True
+                    for v, e_ in cons:
+                        for sg in (1, -1):
+                            r_ = e_ - Z.scale(sg)
+                            if r_.is_const() and r_.t and ((v == 'lt' and 0 < -r_.cval() < Fraction(1, 1000)) or False):
+                                return True
+                            r_ = e_ + Z.scale(sg)
+                            if r_.is_const() and r_.t and (v == 'gt' and 0 < r_.cval() < Fraction(1, 1000)):
+                                return True
+                    return False
+                bx, by = bounded(Xq), bounded(Yq)
+                oid = '%s.guard.path%d' % (name, n)
+                if bx and by:
+                    res.append(R.ob(oid, 'euler_extract', R.PROVED, 'the fallback is taken with both atan2 arguments below epsilon  [%s]' % regime(asg, infos), kernel=kg.source()))
+                    continue
+                # refutation: a rational unit quaternion on this path where the returned angle is not atan2(Y, X)
+                wit = None
+                for cand in _euler_candidates():
+                    env = dict(zip(qa, cand))
+                    try:
+                        if not all((P.eval_poly(e_, env) < 0) if v == 'lt' else (P.eval_poly(e_, env) > 0) for v, e_ in cons):
+                            continue
+                        yv, xv = P.eval_poly(Yq, env), P.eval_poly(Xq, env)
+                        if fn_ == 'roll' or not a2:
+                            # returns a constant (0): wrong unless atan2(Y, X) is that constant, i.e. Y == 0 and X > 0
+                            differs = got.is_const() and not (yv == 0 and xv > 0) and (got.is_zero())
+                        else:
+                            fy, fx = P.eval_poly(a2[0][1][1][1], env), P.eval_poly(a2[0][1][2][1], env)
+                            # 2 atan2(fy, fx) has direction (fx + i fy)^2
+                            dx, dy = fx * fx - fy * fy, 2 * fx * fy
+                            differs = (got - Poly.var(a2[0][0]).scale(2)).is_zero() and (dx * yv - dy * xv != 0 or dx * xv + dy * yv < 0)
+                    except P.CantEval:
+                        continue
+                    if differs:
+                        wit = 'q = (w %s, x %s, y %s, z %s): the regular arguments are (Y, X) = (%s, %s), the path returns %s' % (cand[0], cand[1], cand[2], cand[3], yv, xv, P.show_poly(got, limit=3))
+                        break
+                res.append(R.ob(oid, 'euler_extract', R.REFUTED if wit else R.UNDECIDED,
+                                'the fallback is taken although %s is not bounded by epsilon on the path  [%s]%s' % ('X' if not bx else 'Y', regime(asg, infos), ('  -- e.g. ' + wit) if wit else ''),
+                                where=R.where_of(ctx.fn(kg), tg_) if wit else None, kernel=kg.source()))
+            return res
+        cs.append(R.Case(name, [kc, kg], judge))
+
+    # yaw and eulerAngles
+    ky = K('yaw_of_euler_%s' % kt, [Par('o', sc, False), Par('e', v3)], '*o = yaw(%s(*e));' % qt.cpp, cfg)
+    ke = K('eulerAngles_q_%s' % kt, [Par('o', v3, False), Par('q', qt)], '*o = eulerAngles(*q);', cfg)
+    kp = [K('%s_q_%s' % (f, kt), [Par('o', sc, False), Par('q', qt)], '*o = %s(*q);' % f, cfg) for f in ('pitch', 'yaw', 'roll')]
+    name = 'yaw(q)<%s>' % tg
+
+    def judge_y(ctx):
+        res = []
+        for kern in [ky, ke] + kp:
+            err = ctx.compile_error(kern)
+            if err:
+                return [R.ob(name, 'existence', R.REFUTED, 'cannot be instantiated: ' + err, kernel=kern.source())]
+        t = L.out_lanes(ctx, ky, sc)[0]
+        leaves = P.decision_paths(lambda a_: P.NormCtx(a_, norm), lambda cx: cx.fpoly(t))
+        seen = set()
+        for asg, infos, got, cx in leaves:
+            if got.key() in seen:
+                continue
+            seen.add(got.key())
+            oid = '%s.euler.path%d' % (name, len(seen))
+            asn = [P.atom_key(a) for a in got.atoms() if P.atom_key(a)[0] == 'fn:asin']
+            if len(asn) == 1 and len(got.t) == 1:
+                arg = norm(asn[0][1][1])
+                ok = (arg - norm(sin_(1))).is_zero()
+                if ok or arg.is_const():
+                    # a constant argument is the clamped end: the path has |sin y| >= 1
+                    res.append(R.ob(oid, 'euler_extract', R.PROVED, 'yaw(qua(e)) = asin(sin y)' if ok else 'clamped end asin(%s)' % P.show_poly(arg), kernel=ky.source()))
+                    continue
+                env = P.find_witness('gt', ONE, [arg - norm(sin_(1))]) if P.transparent(arg) else None
+                res.append(R.ob(oid, 'euler_extract', R.REFUTED if env else R.UNDECIDED, 'asin argument %s is not sin y%s' % (P.show_poly(arg, limit=4), (' -- e.g. at ' + P.show_env(env)) if env else ''), kernel=ky.source()))
+            else:
+                res.append(R.ob(oid, 'euler_extract', R.UNDECIDED, 'result %s' % P.show_poly(got, limit=4), kernel=ky.source()))
+        le = L.out_lanes(ctx, ke, v3)
+        for i, f in enumerate(('pitch', 'yaw', 'roll')):
+            ti = L.out_lanes(ctx, kp[i], sc)[0]
+            same = le[i] is ti
+            res.append(R.ob('eulerAngles(q)<%s>[%d]' % (tg, i), 'euler_extract', R.PROVED if same else R.UNDECIDED, 'component %d is %s(q)' % (i, f) if same else 'component %d: %s versus %s(q) = %s' % (i, tm.show(le[i], 3), f, tm.show(ti, 3)),
+                            kernel=ke.source()))
+        return res
+    cs.append(R.Case(name, [ky, ke] + kp, judge_y))
+    return cs
+
+
+def _euler_candidates():
+    """rational unit quaternions (w, x, y, z) in general position and on the zero sets of the regular atan2 arguments of pitch / roll"""
+    F = Fraction
+    base = [(F(1, 2), F(1, 10), F(7, 10), F(1, 2)), (F(1, 2), F(1, 2), F(1, 10), F(7, 10)), (F(1, 10), F(1, 2), F(1, 2), F(7, 10)), (F(7, 10), F(1, 2), F(1, 2), F(1, 10)),
+            (F(0), F(3, 5), F(0), F(4, 5)), (F(3, 5), F(0), F(4, 5), F(0)), (F(0), F(0), F(3, 5), F(4, 5)), (F(3, 5), F(4, 5), F(0), F(0)),
+            (F(2, 15), F(1, 3), F(2, 3), F(2, 3) * F(-1) + F(4, 3) - F(2, 15) * 0), (F(1, 3), F(2, 3), F(2, 3), F(0)), (F(2, 7), F(3, 7), F(6, 7), F(0)), (F(6, 7), F(2, 7), F(0), F(3, 7))]
+    out = []
+    import itertools
+    for b in base:
+        if sum(v * v for v in b) != 1:
+            continue
+        for sg in itertools.product((1, -1), repeat=4):
+            out.append(tuple(v * s_ for v, s_ in zip(b, sg)))
+    return out
 
 
 # ---- quat_cast(mat3_cast(q)) ---------------------------------------------------------------------------------------------------------------
@@ -1249,6 +1475,6 @@ EXPLANATION = ('static: the quaternion operators, casts, axis/angle and Euler-an
                'identities modulo |q| = 1 and sin^2 + cos^2 = 1; quat_cast(mat3_cast(q)) is shown parallel to q with unit norm in each branch of the largest-of-four selection')
 ASSUMPTIONS = ['float operations read as exact real arithmetic: the agreement of the forms is an algebraic identity over the rotation group; accuracy near singular configurations is not decided',
                'unit quaternions are modelled by the ideal w^2 + x^2 + y^2 + z^2 = 1',
-               'quat(eulerAngles(q)) (roll/pitch/yaw with atan2 guards) and slerp-type functions are not decided here']
+               'roll / pitch / yaw are decided through the arguments of their atan2 / asin for q = qua(e): the round trip e -> q -> e holds where cos(yaw) > 0 (principal ranges of atan2 / asin are the libm contract); slerp-type functions are C13']
 TRUSTED = ['clang/LLVM 14', 'tools/irtool.cc', 'laneflow normal forms', 'the Hamilton product / Rodrigues / axis-rotation formulas in rules/c04.py']
 LEVEL = 'proof'
